@@ -16,6 +16,7 @@ func init() {
 		run: runC07,
 		explanation: "Decided (structural, for every Put/Get sequence and capacity): " +
 			"C07.keymatch — Get returns the bitmap of the element found under exactly the requested key; Put stores a new element under the key it records in the item; eviction deletes the map entry under the evicted item's own key; " +
+			"C07.putstore — every path through Put looks the key up, and when the key is present every path stores the new bitmap into the found item before returning (no return in front of the lookup, no skipped overwrite); " +
 			"C07.touch — the hit path of Get and the existing-key path of Put move the element to the front on every path, inserts push to the front, eviction removes the element at the back; " +
 			"C07.account — every update of the byte counter adds or subtracts the same expression of an item (its recorded size plus the same overhead constants); wherever a bitmap is stored into an item the item's size is set to that bitmap's GetSizeInBytes() (also when overwriting); every path that increases the counter reaches the eviction loop before returning, and the loop removes from the back while counter > capacity and the list is non-empty (capacity 0 needs no special case); " +
 			"C07.counters — on every path Get/Put increment their call counter exactly once unless it is nil, a return of (bitmap, true) has passed exactly the hit counter, a return of (nil, false) exactly the miss counter. " +
@@ -236,6 +237,8 @@ func (L *lruCtx) keymatch() {
 	if nIns == 0 {
 		c.r.bad(rule, safeFname(put)+": insert", "Put never inserts into the entries map", []string{c.w.pos(put.Pos())})
 	}
+	// Put consults the map on every path, and on the found path stores the new bitmap into the found item
+	L.putstore(put, pk, bmParam, sameAsPutParam)
 	// eviction: delete(entries, removedItem.key)
 	nDel := 0
 	for _, fn := range append(c.scope(put, 2), c.scope(get, 2)...) {
@@ -264,6 +267,103 @@ func (L *lruCtx) keymatch() {
 	}
 	if nDel == 0 {
 		c.r.bad(rule, safeFname(put)+": delete", "evicted elements are never deleted from the entries map", []string{c.w.pos(put.Pos())})
+	}
+}
+
+// putstore: "a hit returns exactly the bitmap most recently stored under that key". Necessary shape: (1) every path
+// through Put looks the key up in the entries map (a return in front of the lookup leaves an older bitmap retrievable
+// under the key); (2) from the edge on which the lookup reported "present", every path to a return stores Put's bitmap
+// into the bitmap field of the found item. A path that skips an absent key is not a violation (nothing stale is left).
+func (L *lruCtx) putstore(put *ssa.Function, pk, bmParam ssa.Value, sameAsPutParam func(v, p ssa.Value) bool) {
+	const rule = "C07.putstore"
+	c := L.c
+	isRet := func(i ssa.Instruction) bool { _, ok := i.(*ssa.Return); return ok }
+	isLookup := func(i ssa.Instruction) bool {
+		lk, ok := i.(*ssa.Lookup)
+		return ok && path(lk.X).lastField() == L.entries
+	}
+	if w := c.fc.pathAvoiding(put, nil, isRet, c.fc.ipAvoid(isLookup)); w != nil {
+		c.r.bad(rule, safeFname(put)+": lookup on every path", "a path through Put returns without consulting the entries map: if the key is present, the bitmap stored earlier stays retrievable under it", []string{c.w.ipos(w[len(w)-1])}, c.fc.witnessStrings(w)...)
+	} else {
+		c.r.ok(rule, safeFname(put)+": lookup on every path", "every path through Put looks the key up", c.w.pos(put.Pos()))
+	}
+	n := 0
+	for _, fn := range c.scope(put, 2) {
+		for _, lk := range L.lookups(fn) {
+			elem, okv := extractOf(lk, 0), extractOf(lk, 1)
+			if elem == nil || okv == nil {
+				continue
+			}
+			n++
+			isStore := func(i ssa.Instruction) bool {
+				st, ok := i.(*ssa.Store)
+				if !ok {
+					return false
+				}
+				fa, ok := st.Addr.(*ssa.FieldAddr)
+				if !ok || fieldOf(fa.X.Type(), fa.Field) != L.itBM {
+					return false
+				}
+				return sameAsPutParam(st.Val, bmParam)
+			}
+			// entry of the found branch
+			var w []ssa.Instruction
+			found := false
+			for _, b := range fn.Blocks {
+				if len(b.Preds) != 1 {
+					continue
+				}
+				p := b.Preds[0]
+				iff, ok := p.Instrs[len(p.Instrs)-1].(*ssa.If)
+				if !ok {
+					continue
+				}
+				cond, pol := iff.Cond, p.Succs[0] == b
+				if u, ok := cond.(*ssa.UnOp); ok && u.Op == token.NOT {
+					cond, pol = u.X, !pol
+				}
+				if cond != ssa.Value(okv) || !pol {
+					continue
+				}
+				found = true
+				first := b.Instrs[0]
+				if isStore(first) {
+					continue
+				}
+				if ww := c.fc.pathAvoiding(fn, first, isRet, c.fc.ipAvoid(isStore)); ww != nil {
+					w = ww
+				}
+			}
+			key := fmt.Sprintf("%s: overwrite", safeFname(fn))
+			switch {
+			case !found:
+				c.r.undecided(rule, key, "no branch on the lookup's found flag", c.w.ipos(lk))
+			case w != nil && fn != put:
+				// a finder helper: the caller stores
+				okCaller := true
+				nCall := 0
+				allInstrs(put, func(j ssa.Instruction) {
+					if call, ok := j.(*ssa.Call); ok && calleeFunc(&call.Call) == fn {
+						nCall++
+						if ww := c.fc.pathAvoiding(put, call, isRet, c.fc.ipAvoid(isStore)); ww != nil {
+							okCaller = false
+						}
+					}
+				})
+				if nCall > 0 && okCaller {
+					c.r.ok(rule, key, "the caller stores the new bitmap after the lookup helper", c.w.ipos(lk))
+				} else {
+					c.r.bad(rule, key, "the key is present but some path returns without storing the new bitmap into the found item: Get keeps returning the older bitmap", []string{c.w.ipos(lk)}, c.fc.witnessStrings(w)...)
+				}
+			case w != nil:
+				c.r.bad(rule, key, "the key is present but some path returns without storing the new bitmap into the found item: Get keeps returning the older bitmap", []string{c.w.ipos(lk)}, c.fc.witnessStrings(w)...)
+			default:
+				c.r.ok(rule, key, "on the found path the new bitmap is stored into the found item on every path", c.w.ipos(lk))
+			}
+		}
+	}
+	if n == 0 {
+		c.r.undecided(rule, "<vacuity>", "Put (and its helpers) never look up the entries map", c.w.pos(put.Pos()))
 	}
 }
 
